@@ -39,7 +39,7 @@ CONSTANTS
 INVARIANT Emit
 CHECK_DEADLOCK FALSE
 """
-CHUNK = {"ttl": 8, "make": 16, "range": 8, "srow": 1, "s32cmp": 16, "s32add": 4}
+CHUNK = {"ttl": 8, "make": 16, "via": 8, "range": 8, "srow": 1, "s32cmp": 16, "s32add": 4}
 STRICT_KINDS = ("make", "range", "srow", "s32add")
 
 
@@ -62,31 +62,41 @@ def explode(tr):
     return out
 
 
+def via_of(e, clause):
+    return next((v for v in e.get("vias", []) if clause.endswith("_" + v)), "?")
+
+
 def classify(tr, line, clause):
     """Case signature of a rejected single-event trace."""
     e = tr["ev"][line - 1] if line and 0 < line <= len(tr["ev"]) else {}
     op = e.get("op", "?")
     res = e.get("res", ["?"])
-    if op == "ttl" and clause == "TtlRefused_TrailingNumber" and res[0] == "ok":
+    if op in ("ttl", "via") and clause.split("_")[:2] == [op.capitalize() + "Refused", "TrailingNumber"]:
         tail = []
         for c in reversed(e["text"]):
             if not 48 <= c <= 57:
                 break
             tail.append(c)
         if tail and all(c == 48 for c in tail):
-            return "X02-F1:ttl:zero-after-last-unit-accepted"
+            return "X02-F1:%s:zero-after-last-unit-accepted" % (op if op == "ttl" else "via-" + via_of(e, clause))
     if op == "range" and clause == "RangeRefused_BadSlash" and res[0] == "ok" and e["text"].count(47) >= 2:
         cs = e["text"]
         if cs.count(45) == 1 and all(48 <= c <= 57 or c in (45, 47) for c in cs):
             return "X02-F2:range:second-slash-accepted"
     if op in ("ttl", "make", "range"):
         return "%s:%s:%s" % (clause, op, res[0] if res[0] == "ok" else res[1])
+    if op == "via":
+        r = dict(zip(e["vias"], res)).get(via_of(e, clause), ["?", "?"])
+        return "%s:%s" % (clause, r[0] if r[0] == "ok" else r[1])
     if op in ("cmp", "add"):
         return "%s:%s:bits%s" % (clause, e.get("kind", op), e.get("bits"))
     return "%s:%s" % (clause, op)
 
 
 def describe(e):
+    if e.get("op") == "via":
+        return "TTL text %r via %s" % (show(e["text"]), ", ".join(
+            "%s %s" % (n, "-> " + show(r[1]) if r[0] == "ok" else "raised " + r[1]) for n, r in zip(e["vias"], e["res"])))
     if "text" in e:
         r = e["res"]
         got = ("-> " + (show(r[1]) if e["op"] != "range" else "(%s)" % ", ".join(show(x) for x in r[1]))) if r[0] == "ok" else "raised " + r[1]
@@ -111,7 +121,7 @@ def run(ctx):
     else:
         ctx.model("MC_TtlRange", "MC_TtlRange_%s.cfg" % ctx.tier, workers=1 if quick else 4)
         sizes = {}
-        for kind in ("ttl", "make", "range", "srow", "s32cmp", "s32add"):
+        for kind in ("ttl", "make", "via", "range", "srow", "s32cmp", "s32add"):
             cfg = ctx.cfg("gen_%s.cfg" % kind, GEN_CFG.format(kind=kind, **TIERS[ctx.tier]))
             items = [b[0] for b in ctx.generate("Gen_TtlRange", cfg, count=False)]
             sizes[kind] = len(items)
@@ -122,7 +132,7 @@ def run(ctx):
                 if kind in ("ttl", "range"):
                     if any(48 <= c <= 57 for c in it) and any(not 48 <= c <= 57 for c in it):
                         ctx.distinct.add(kind + ":" + show(it))
-                elif kind != "make":
+                elif kind not in ("make", "via"):
                     ctx.distinct.add(kind + ":" + json.dumps(it))
         ctx.extra["universe_sizes"] = sizes
         ctx.extra["exhaustive"] = True
@@ -149,7 +159,7 @@ def run(ctx):
     for tr, line, clause in final:
         e = tr["ev"][line - 1] if line else {}
         item = e.get("text") if "text" in e else [e.get("bits"), e.get("a")] if "bits" in e else [e.get("a"), e.get("b", e.get("n"))]
-        kind = {"ttl": "ttl", "make": "make", "range": "range", "cmp": "srow", "add": "srow", "cmp32": "s32cmp", "add32": "s32add"}.get(e.get("op"), tr["kind"])
+        kind = {"ttl": "ttl", "make": "make", "via": "via", "range": "range", "cmp": "srow", "add": "srow", "cmp32": "s32cmp", "add32": "s32add"}.get(e.get("op"), tr["kind"])
         ctx.violation(clause, classify(tr, line, clause), describe(e), {"kind": kind, "item": item, "event": e})
 
     # drift: the deterministic choices of the library (never an alarm)
